@@ -6,8 +6,10 @@ from engine import *
 import impl_graph
 
 PID = "C14"
-THEOREMS = []
-IMPORTS = []
+THEOREMS = ["PauLie.C14.C14_collection", "PauLie.C14.C14_commutants", "PauLie.C14.C14_commutants_empty", "PauLie.C14.C14_graph_edges",
+            "PauLie.C14.C14_components_partition", "PauLie.C14.C14_components_connected", "PauLie.C14.C14_subgraphs_partition",
+            "PauLie.C14.C14_subgraphs_connected", "PauLie.C14.C14_commutator_graph", "PauLie.C14.C14_commutator_graph_undirected", "PauLie.C14.C14_pairs"]
+IMPORTS = ["PauLieVerif.Properties.C14"]
 
 def anti(a, b):
     k = 0
